@@ -15,6 +15,7 @@
 #include "interpret.h"
 #include "lpc/object.h"
 #include "lpc/include/origin.h"
+#include "lpc/program/binaries.h"
 
 #include <assert.h>
 
@@ -285,6 +286,9 @@ void set_simul_efun (object_t* ob) {
     return;
   get_simul_efuns (simul_efun_ob->prog);
   add_ref (simul_efun_ob, "set_simul_efun");
+#ifdef BINARIES
+  binaries_simul_efun_loaded (); /* saved binaries hold simul_efun indexes */
+#endif
 }
 
 void call_simul_efun (int simul_num, int num_args)
